@@ -83,6 +83,15 @@ func NewMemoryCache[MetadataT any](cfg *config.Config, memoryBudgetPercent int, 
 				}
 			}
 		},
+		getMetadata: func(key CacheKey) (*EntryMetadata[MetadataT], bool) {
+			c.mu.RLock()
+			defer c.mu.RUnlock()
+			entry, ok := c.entries[key]
+			if !ok {
+				return nil, false
+			}
+			return entry.meta, true
+		},
 		removeEntry: func(key CacheKey) error {
 			return c.deleteInternal(key)
 		},
